@@ -29,6 +29,8 @@ func main() {
 		replayMain(os.Args[2:])
 	case "gen":
 		genMain(os.Args[2:])
+	case "hist":
+		histMain(os.Args[2:])
 	case "selftest":
 		selftestMain()
 	default:
